@@ -77,6 +77,22 @@ CLAIMED.update({
         technique="Coq proof (potential-function argument on the never-forgetting per-key run, same-instant write lemma) + refutation witness by vm_compute + differential correspondence with class predicate", ref="DESIGN.md §5 C17"),
 })
 
+RESP_NOTE = COMMON_NOTE + ("Axioms: none. str::from_utf8, str::parse::<i64>, to_string are modelled (UTF-8 DFA, decimal codec) and exercised exhaustively on short strings; "
+    "str::to_uppercase and the limiter's answers are oracle parameters of the command-handler model; TCP/tokio are not modelled.")
+CLAIMED.update({
+    "C13": dict(
+        text="Machine-checked theorems (Properties/C13.v) about an executable model of RespParser (mutable nesting depth threaded, every slice an explicit bounds check): total on any bytes "
+             "(no panic outcome, fuel always sufficient), consumed within [1, len], depth restored on value/need-more, size/count/nesting limits (regenerated constants) rejected, prefix stability, "
+             "strict prefix of a frame needs more data, chunking independence of the connection loop and the buffer cap. Tied to the code by exhaustive enumeration of all byte strings up to a length "
+             "over the protocol alphabet (enumerated independently inside Coq), generated frames/mutations, sessions on one parser instance and real TCP connections in many splittings.",
+        note=RESP_NOTE + " Chunking independence is proved for the cap-less loop plus the lemma that below the cap the real loop coincides with it; frames within 1024 bytes of the 64 KiB cap can make the cap split-dependent (DESIGN.md).",
+        technique="Coq proof (mutual induction on fuel over the parser model; prefix-stability; stream/chunk refinement) + exhaustive small-scope and TCP differential correspondence", ref="DESIGN.md §5 C13"),
+    "C14": dict(
+        text="Machine-checked theorems (Properties/C14.v): decode(encode v ++ rest) = (v, |encode v|) for every well-formed value at any depth within the limit (induction on values, decimal round trip), "
+             "everything the decoder returns is well-formed, and every reply of the command handler - any command text, any upper-casing oracle, any limiter answer - is one well-formed value, hence exactly one frame.",
+        note=RESP_NOTE, technique="Coq proof (structural induction with nested lists, decimal codec round trip, reply well-formedness) + byte-for-byte differential correspondence and TCP reply re-parsing", ref="DESIGN.md §5 C14"),
+})
+
 PENDING_REASON = ("framework for this property is still being built in this round (DESIGN.md §8.2 order of work); "
                   "no check is claimed until its theorems and correspondence run")
 
